@@ -22,7 +22,7 @@ from __future__ import annotations
 
 import ast
 import re
-from typing import Dict, List, Optional, Set, Tuple
+from typing import Any, Dict, List, Optional, Set, Tuple
 
 from sa.cfg import CFG, Node, describe_path
 from sa.core import AnalysisError, Finding, FuncInfo, Program, Report, dotted, program, src, walk_no_nested
@@ -165,7 +165,10 @@ def run(rep: Report, tier: str) -> None:
         return None, None
     ifd, lpd = assignment_guard(vs, "self.dependencies")
     tv = P.func("vtlengine.duckdb_transpiler.Transpiler.SQLTranspiler.visit_Start")
-    ift, lpt = assignment_guard(tv, "queries.append")
+    ret_names = {r.value.id for r in walk_no_nested(tv.node) if isinstance(r, ast.Return) and isinstance(r.value, ast.Name)}
+    if len(ret_names) != 1:
+        raise AnalysisError("SQLTranspiler.visit_Start: the returned query list is not a single local")
+    ift, lpt = assignment_guard(tv, f"{next(iter(ret_names))}.append")
     rep.instance("R13.2", "numbered-children-filter", nontrivial=True,
                  sample={"dag": src(ifd.test) if ifd else None, "transpiler": src(ift.test) if ift else None})
     if ifd is None or ift is None:
@@ -187,7 +190,7 @@ def run(rep: Report, tier: str) -> None:
     gt = CFG(tv.node)
     branch_ids = {id(x) for st in ift.body for x in ast.walk(st)}
     appends = [n for n in gt.nodes if n.stmt is not None and id(n.stmt) in branch_ids and n.kind == "stmt"
-               and any(_callee_name(c) == "append" and src(c.func.value) == "queries" for c in gt.calls_at(n))]
+               and any(_callee_name(c) == "append" and src(c.func.value) == next(iter(ret_names)) for c in gt.calls_at(n))]
     test_node = [n for n in gt.nodes if n.kind == "test" and n.stmt is ift]
     rep.instance("R13.2", "one-query-per-assignment", nontrivial=True, sample={"append_sites": [a.lineno for a in appends]})
     if not test_node or not appends:
@@ -245,67 +248,7 @@ def run(rep: Report, tier: str) -> None:
 
     # ---- R13.4 / R13.5 ------------------------------------------------------------------------------------
     ua = P.func(f"{DAG}._ds_usage_analysis")
-    gu = CFG(ua.node)
-    ins = [n for n in gu.nodes if n.kind == "stmt" and any(_callee_name(c) == "append" and isinstance(c.func.value, ast.Subscript)
-                                                          and src(c.func.value.value) == "insertion" for c in gu.calls_at(n))]
-    if not ins:
-        raise AnalysisError("_ds_usage_analysis: insertion[...].append not found")
-    for n in ins:
-        call = [c for c in gu.calls_at(n) if _callee_name(c) == "append"][0]
-        elem = src(call.args[0])
-        # dominated by a test `elem not in global_set` taken on its true branch
-        guard = None
-        p_ = getattr(n.stmt, "_parent", None)
-        while p_ is not None and p_ is not ua.node:
-            if isinstance(p_, ast.If) and re.search(rf"\b{re.escape(elem)} not in (\w+)", src(p_.test)) and any(n.stmt is x or n.stmt in ast.walk(x) for x in p_.body):
-                guard = p_
-            p_ = getattr(p_, "_parent", None)
-        rep.instance("R13.4", f"guard/{elem}", nontrivial=True, sample={"append": src(call), "guard": src(guard.test) if guard else None})
-        if guard is None:
-            rep.add(Finding("R13.4", "R13.4/guard", ua.module.rel, n.lineno, ua.qualname,
-                            f"`{src(call)}` is not guarded by `{elem} not in <seen set>`: a global input read by several statements is loaded more than once"))
-            continue
-        seen_sets = re.findall(rf"\b{re.escape(elem)} not in (\w+)", src(guard.test))
-        adds = [x for x in ast.walk(guard) if isinstance(x, ast.Call) and _callee_name(x) == "add" and src(x.func.value) in seen_sets and src(x.args[0]) == elem]
-        if not adds or not any(s in ("global_set",) or True for s in seen_sets):
-            rep.add(Finding("R13.4", "R13.4/mark", ua.module.rel, n.lineno, ua.qualname,
-                            f"after scheduling the load of `{elem}` it is not added to {seen_sets}: it will be scheduled again"))
-        # the guard must also exclude script outputs
-        if "all_outputs" not in src(guard.test):
-            rep.add(Finding("R13.4", "R13.4/outputs-excluded", ua.module.rel, guard.lineno, ua.qualname,
-                            "load guard does not exclude names produced by the script (`not in all_outputs`)"))
-    dels = [s for s in walk_no_nested(ua.node) if isinstance(s, ast.Subscript) and src(s.value) == "deletion" and isinstance(s.ctx, ast.Load)]
-    if not dels:
-        raise AnalysisError("_ds_usage_analysis: deletion[...] not found")
-    for s in dels:
-        rep.instance("R13.5", f"index/{src(s.slice)}", nontrivial=True, sample={"deletion_index": src(s.slice)})
-        sl = s.slice
-        ok = (isinstance(sl, ast.Call) and src(sl.func) == "last_consumer.get" and len(sl.args) == 2 and src(sl.args[1]) == "key")
-        if ok:
-            app = getattr(s, "_parent", None)
-            app = getattr(app, "_parent", None)
-            ok = isinstance(app, ast.Call) and _callee_name(app) == "append" and src(app.args[0]) == src(sl.args[0])
-        if not ok:
-            rep.add(Finding("R13.5", f"R13.5/index/{src(s.slice)[:40]}", ua.module.rel, s.lineno, ua.qualname,
-                            f"release scheduled at `{src(s.slice)}`: must be last_consumer.get(<the released name>, key) — the last reader, "
-                            f"or the producing statement when nobody reads it"))
-    writers = [n for n in walk_no_nested(ua.node) if isinstance(n, (ast.Assign, ast.AugAssign)) and any(
-        isinstance(t, ast.Subscript) and src(t.value) == "last_consumer" for t in (n.targets if isinstance(n, ast.Assign) else [n.target]))]
-    other = [n for n in walk_no_nested(ua.node) if isinstance(n, ast.Call) and isinstance(n.func, ast.Attribute)
-             and src(n.func.value) == "last_consumer" and n.func.attr in ("setdefault", "update", "pop")]
-    rep.instance("R13.5", "last_consumer-writer", nontrivial=True, sample={"writers": [src(w) for w in writers], "other": [src(o) for o in other]})
-    okw = len(writers) == 1 and not other and isinstance(writers[0], ast.Assign) and src(writers[0].value) == "key"
-    if okw:
-        w = writers[0]
-        par = getattr(w, "_parent", None)
-        inner_ok = isinstance(par, ast.For) and src(w.targets[0].slice) == src(par.target) and src(par.iter).endswith(".inputs")
-        outer = getattr(par, "_parent", None)
-        outer_ok = isinstance(outer, ast.For) and src(outer.iter) == "self.dependencies.items()" and src(outer.target).startswith("(key,")
-        okw = inner_ok and outer_ok
-    if not okw:
-        rep.add(Finding("R13.5", "R13.5/last_consumer-writer", ua.module.rel, ua.node.lineno, ua.qualname,
-                        "last_consumer must be written by one unconditional `last_consumer[input] = key` inside "
-                        "`for key, statement in self.dependencies.items(): for input in statement.inputs` (later statements overwrite earlier ones)"))
+    _schedule_model(P, rep, ua)
     # promotion loops in visit_Start: no early exit
     for lp in [n for n in walk_no_nested(vs.node) if isinstance(n, ast.For)]:
         if any(isinstance(x, ast.Call) and _callee_name(x) == "append" and src(x.func.value).endswith(".inputs") for x in ast.walk(lp)):
@@ -318,30 +261,76 @@ def run(rep: Report, tier: str) -> None:
 
     # ---- R13.6 ------------------------------------------------------------------------------------------
     cl = P.func(f"{EXEC}.cleanup_scheduled_datasets")
-    tests_cl = [n.test for n in walk_no_nested(cl.node) if isinstance(n, ast.If) and "return_only_persistent" in src(n.test)]
-    fin = [n for n in walk_no_nested(f.node) if isinstance(n, ast.Assign) and "return_only_persistent" in src(n.value)]
-    tests_fin = [n.value for n in fin] or [n.test for n in walk_no_nested(f.node) if isinstance(n, ast.If) and "return_only_persistent" in src(n.test) and "is_persistent" in src(n.test)]
-    if len(tests_cl) != 1 or len(tests_fin) != 1:
-        raise AnalysisError("selection predicates on return_only_persistent not found (anchor changed)")
-    it = Interp(P)
+    from sa.e6 import ExternalObj as _EO, Raised as _Rs, Unmodelled as _Un
+    # the loop of execute_queries that collects what is still unfetched at the end: `for name, _, persistent in <queries parameter>`
+    fin_loops = [n for n in walk_no_nested(f.node) if isinstance(n, ast.For) and isinstance(n.iter, ast.Name) and n.iter.id in f.params
+                 and any(isinstance(c, ast.Call) and _callee_name(c) == "fetch_result" for c in ast.walk(n))]
+    if len(fin_loops) != 1:
+        raise AnalysisError("execute_queries: the final collection loop over the queries parameter (calling fetch_result) was not found")
+
+    class _Conn:
+        def __init__(self) -> None:
+            self.sql: List[str] = []
+
+        def execute(self, q: str, *a: Any) -> "_Conn":
+            self.sql.append(q)
+            return self
     table = []
     for rop in (True, False):
         for pers in (True, False):
-            a = it.truth(it.eval(tests_cl[0], {"return_only_persistent": rop, "ds_name": "X", "persistent_datasets": ["X"] if pers else []}, cl))
-            b = it.truth(it.eval(tests_fin[0], {"return_only_persistent": rop, "is_persistent": pers}, f))
             want = (not rop) or pers
+            # (a) the scheduled release
+            res_a: Dict[str, Any] = {}
+            sched = _EO({"deletion": {1: ["X"]}, "global_inputs": [], "persistent": ["X"] if pers else [], "insertion": {}, "all_outputs": ["X"]})
+            try:
+                Interp(P, externals={"fetch_result": lambda **kw: "FETCHED"}).call(cl, {
+                    "conn": _Conn(), "statement_num": 1, "ds_analysis": sched, "output_folder": None, "output_datasets": {}, "output_scalars": {},
+                    "results": res_a, "return_only_persistent": rop})
+            except (_Un, _Rs) as e:
+                raise AnalysisError(f"R13.6: cleanup_scheduled_datasets outside the evaluator's language: {e}")
+            a = "X" in res_a
+            # (b) the final collection loop
+            res_b: Dict[str, Any] = {}
+            env = {p_: None for p_ in f.params}
+            env.update({fin_loops[0].iter.id: [("X", "SELECT 1", pers)], "return_only_persistent": rop, "output_datasets": {}, "output_scalars": {}})
+            # the loop reads the results dict under whatever local name it has: every dict-valued local assigned `{}` before the loop
+            for n in walk_no_nested(f.node):
+                if isinstance(n, (ast.Assign, ast.AnnAssign)) and n.value is not None and isinstance(n.value, ast.Dict) and not n.value.keys and n.lineno < fin_loops[0].lineno:
+                    for t in (n.targets if isinstance(n, ast.Assign) else [n.target]):
+                        if isinstance(t, ast.Name):
+                            env[t.id] = res_b
+            for n in walk_no_nested(f.node):  # other locals the loop body mentions (representation ...): opaque
+                if isinstance(n, ast.Name) and isinstance(n.ctx, ast.Store) and n.id not in env:
+                    env[n.id] = None
+            try:
+                Interp(P, externals={"fetch_result": lambda **kw: "FETCHED"}).exec(fin_loops[0], env, f)
+            except (_Un, _Rs) as e:
+                raise AnalysisError(f"R13.6: final collection loop of execute_queries outside the evaluator's language: {e}")
+            b = "X" in res_b
             table.append((rop, pers, a, b))
             rep.instance("R13.6", f"rop={rop}/persistent={pers}", nontrivial=True, sample={"return_only_persistent": rop, "persistent": pers, "cleanup": a, "final": b})
             if a != want or b != want:
                 rep.add(Finding("R13.6", f"R13.6/rop={rop}/persistent={pers}", f.module.rel, f.node.lineno, f.qualname,
-                                f"result selection for return_only_persistent={rop}, persistent={pers}: cleanup path says {a}, final loop says {b}, "
-                                f"specified {want}"))
+                                f"result selection for return_only_persistent={rop}, persistent={pers}: the scheduled release {'returns' if a else 'does not return'} the result, "
+                                f"the final collection {'returns' if b else 'does not return'} it; specified: {'returned' if want else 'not returned'}"))
     # persistent list is built from statement.persistent
-    pl = [n for n in walk_no_nested(ua.node) if isinstance(n, ast.Call) and _callee_name(n) == "append" and src(n.func.value) == "persistent_datasets"]
-    rep.instance("R13.6", "persistent-source", nontrivial=True, sample={"appends": [src(x) for x in pl]})
-    if not pl or any("statement.persistent" not in src(x.args[0]) for x in pl):
+    # DatasetSchedule.persistent == the names assigned with `<-` (evaluated on a model)
+    class _D:
+        def __init__(self, inputs=(), outputs=(), persistent=()):
+            self.inputs, self.outputs, self.persistent, self.unknown_variables = list(inputs), list(outputs), list(persistent), []
+
+    class _Me:
+        _e6_class = DAG
+    me = _Me()
+    me.dependencies = {1: _D(["DS_1"], ["A"]), 2: _D(["A"], [], ["P"]), 3: _D(["A"], [], ["Q"]), 4: _D(["DS_1"], ["B"])}
+    try:
+        sch = Interp(P, externals={"DatasetSchedule": lambda **kw: kw}).call(ua, {"self": me})
+    except (_Un, _Rs) as e:
+        raise AnalysisError(f"R13.6: _ds_usage_analysis outside the evaluator's language: {e}")
+    rep.instance("R13.6", "persistent-source", nontrivial=True, sample={"persistent": list(sch.get("persistent", []))})
+    if sorted(sch.get("persistent", [])) != ["P", "Q"]:
         rep.add(Finding("R13.6", "R13.6/persistent-source", ua.module.rel, ua.node.lineno, ua.qualname,
-                        "DatasetSchedule.persistent must be built from statement.persistent"))
+                        f"DatasetSchedule.persistent for a script with `P <- ...; Q <- ...` and two `:=` assignments is {sch.get('persistent')}: it must be exactly the persistent results"))
     # ---- R13.7 ------------------------------------------------------------------------------------------
     rep.rule("R13.7", "ds_structure analyses the AST it is given with a fresh analyser on every path; nothing cached on the AST")
     dsf = P.func("vtlengine.AST.DAG.DAGAnalyzer.ds_structure")
@@ -423,3 +412,61 @@ def run(rep: Report, tier: str) -> None:
     unknown_resolution(P, rep, "R13.9")
     rep.assumptions = ["normal-flow paths only for ordering (an exception aborts the run; its cleanup is C16)",
                        "the DAG's dependencies dict is filled in increasing statement number (single writer checked under R13.2)"]
+
+
+
+def _schedule_model(P: Program, rep: Report, ua: Any) -> None:
+    """R13.4 / R13.5 by evaluation: DAGAnalyzer._ds_usage_analysis is run by the finite evaluator on abstract dependency tables and the
+    schedule it returns is compared with the specification: a global input (a name no statement produces) is loaded exactly once, at
+    its FIRST reader; every dataset (input or result) is released exactly once, at its LAST reader - a result nobody reads at the
+    statement that produces it; names the script produces are never loaded."""
+    from sa.e6 import Raised, Unmodelled
+
+    class Deps:
+        def __init__(self, inputs=(), outputs=(), persistent=()):
+            self.inputs, self.outputs, self.persistent, self.unknown_variables = list(inputs), list(outputs), list(persistent), []
+
+    class Me:
+        _e6_class = DAG
+    scenarios = {
+        "shared-input/chain": {1: Deps(["DS_1"], ["A"]), 2: Deps(["A", "DS_2"], ["B"]), 3: Deps(["DS_1", "A"], [], ["C"])},
+        "input-read-late/unread-result": {1: Deps(["DS_1"], ["A"]), 2: Deps(["DS_2"], ["B"]), 3: Deps(["DS_2", "DS_1"], ["C"]), 4: Deps(["DS_3"], [], ["D"])},
+        "same-input-twice-in-one-statement": {1: Deps(["DS_1", "DS_1"], ["A"]), 2: Deps(["A", "A"], [], ["B"])},
+        "result-read-by-two-later-statements": {1: Deps(["DS_1"], ["A"]), 2: Deps(["A"], ["B"]), 3: Deps(["B"], ["C"]), 4: Deps(["A", "C"], [], ["D"])},
+    }
+    for label, deps in scenarios.items():
+        me = Me()
+        me.dependencies = deps
+        try:
+            res = Interp(P, externals={"DatasetSchedule": lambda **kw: kw}).call(ua, {"self": me})
+        except (Unmodelled, Raised) as e:
+            raise AnalysisError(f"R13.4: _ds_usage_analysis outside the evaluator's language ({label}): {e}")
+        if not isinstance(res, dict) or not {"insertion", "deletion", "global_inputs"} <= set(res):
+            raise AnalysisError(f"R13.4: _ds_usage_analysis does not return DatasetSchedule(insertion=, deletion=, global_inputs=, ...): {res!r}")
+        produced = {n for d in deps.values() for n in d.outputs + d.persistent}
+        readers: Dict[str, List[int]] = {}
+        for k, d in deps.items():
+            for n in d.inputs:
+                readers.setdefault(n, []).append(k)
+        want_ins: Dict[int, List[str]] = {}
+        want_del: Dict[int, List[str]] = {}
+        for n, ks in readers.items():
+            if n not in produced:
+                want_ins.setdefault(min(ks), []).append(n)
+                want_del.setdefault(max(ks), []).append(n)
+        for k, d in deps.items():
+            for n in (d.outputs + d.persistent)[:1]:
+                want_del.setdefault(max(readers.get(n, [k])), []).append(n)
+        got_ins = {k: sorted(v) for k, v in dict(res["insertion"]).items() if v}
+        got_del = {k: sorted(v) for k, v in dict(res["deletion"]).items() if v}
+        wi, wd = {k: sorted(v) for k, v in want_ins.items()}, {k: sorted(v) for k, v in want_del.items()}
+        rep.instance("R13.4", f"schedule/{label}/loads", nontrivial=True, sample={"insertion": got_ins})
+        rep.instance("R13.5", f"schedule/{label}/releases", nontrivial=True, sample={"deletion": got_del})
+        if got_ins != wi or sorted(res["global_inputs"]) != sorted(n for n in readers if n not in produced):
+            rep.add(Finding("R13.4", f"R13.4/schedule/{label}", ua.module.rel, ua.node.lineno, ua.qualname,
+                            f"load schedule for statements {{{', '.join(f'{k}: reads {d.inputs} produces {d.outputs + d.persistent}' for k, d in deps.items())}}}: "
+                            f"insertion = {got_ins}, global_inputs = {sorted(res['global_inputs'])}; every name no statement produces must be loaded exactly once, at its first reader: {wi}"))
+        if got_del != wd:
+            rep.add(Finding("R13.5", f"R13.5/schedule/{label}", ua.module.rel, ua.node.lineno, ua.qualname,
+                            f"release schedule for statements {{{', '.join(f'{k}: reads {d.inputs} produces {d.outputs + d.persistent}' for k, d in deps.items())}}}: "
+                            f"deletion = {got_del}; every dataset must be released exactly once, at its last reader (a result nobody reads: at its own statement): {wd}"))
